@@ -16,7 +16,7 @@ from .values import (BoundExt, ClassRef, ExtRef, FuncRef, OpaqueFn, Opt, Ref, Sy
 class CallMixin:
     BUILTIN_NAMES = {"isinstance", "len", "str", "int", "float", "bool", "max", "min", "type", "getattr", "hasattr", "any", "all", "sum", "tuple",
                      "list", "dict", "set", "range", "enumerate", "zip", "super", "next", "iter", "bytes", "repr", "sorted", "abs", "callable",
-                     "Exception", "BaseException", "object", "NotImplementedError"} | set(EXT_EXC)
+                     "Exception", "BaseException", "object", "NotImplementedError", "bytearray", "memoryview", "frozenset"} | set(EXT_EXC)
 
     # ------------------------------------------------------------------ dispatch
     def call_value(self, f, args, kwargs, st, node=None):
@@ -45,7 +45,9 @@ class CallMixin:
     def call_func(self, fi, args, kwargs, st, closure=None):
         q = fi.qualname
         if q in self.summaries:
-            return self.summaries[q](self, st, args, kwargs)
+            r = self.summaries[q](self, st, args, kwargs)
+            if r is not None:  # None: the summary does not apply to these arguments -> the real body is executed
+                return r
         if st.depth > 60:
             raise Unsupported(f"recursion depth at {q}")
         frame = {"__module__": fi.module, "__func__": q, "__funcinfo__": fi}
@@ -393,6 +395,21 @@ class CallMixin:
         if short == "hasattr":
             r = self.getattr_default(args[0], args[1], "__nodefault__", st.fork())
             return [("val", all(k == "val" for k, _, _ in r), st)]
+        if short in ("any", "all") and isinstance(args[0], Ref) and st.get(args[0]).get("__kind__") == "glist":
+            g = st.get(args[0])
+            b = fresh("bool", short + "_of_generic")
+            et = truth(st, g["elem"])
+            # generic element: all(...) true => the generic element is true (or the list is empty); any(...) false => the generic element is false
+            st.assume(z3.Implies(b.t, z3.Or(g["len"] == 0, et)) if short == "all" else z3.Implies(z3.Not(b.t), z3.Or(g["len"] == 0, z3.Not(et))))
+            st.assume(z3.Implies(g["len"] == 0, b.t if short == "all" else z3.Not(b.t)))
+            if short == "all":
+                # forall-introduction over the generic element: if an earlier all(...) over a list of the same length implies this element
+                # predicate for the generic element, it implies this all(...)
+                for (b0, et0, len0) in st.ghost.get("__alls__", ()):
+                    if z3.eq(simp(len0), simp(g["len"])) and not self.feasible(st, z3.And(et0, z3.Not(et))):
+                        st.assume(z3.Implies(b0, b.t))
+                st.ghost["__alls__"] = tuple(st.ghost.get("__alls__", ())) + ((b.t, et, g["len"]),)
+            return [("val", b, st)]
         if short in ("any", "all"):
             items = self.concrete_items(args[0], st)
             ts = [truth(st, x) for x in items]
@@ -404,6 +421,9 @@ class CallMixin:
             for x in items:
                 acc = ops.binop(st, ast.Add(), acc, x)
             return [("val", acc, st)]
+        if short == "tuple" and args and isinstance(args[0], Ref) and st.get(args[0]).get("__kind__") == "glist":
+            g = st.get(args[0])
+            return [("val", st.alloc("tuple", {"__kind__": "glist", "len": g["len"], "elem": g["elem"]}), st)]
         if short == "tuple":
             return [("val", tuple(self.concrete_items(args[0], st)) if args else (), st)]
         if short == "list":
@@ -548,6 +568,8 @@ class CallMixin:
                 return [("val", d, st)]
         if is_sym(recv, "any"):
             return self.hooks.any_method(self, st, recv, name, args, kwargs)
+        if isinstance(recv, tuple):
+            return self.hooks.pseudo_method(self, st, recv, name, args, kwargs)
         raise Unsupported(f"method {name} of {recv!r}")
 
     def dict_method(self, recv, stor, name, args, kwargs, st):
